@@ -172,9 +172,88 @@ def check_field_coverage(chk, prog):
     chk.floor(R, n, 120, "AST fields checked")
 
 
+def check_numeric_lexing(chk, prog):
+    """`Display for Literal::Float` prints `n.to_string()` and appends `.0` only when that text parses as an i64; every other text it emits
+    (exponent-free digit runs >= 2^63, `1e300` printed in full, ...) relies on the lexer trying i64 first and then falling through to f64."""
+    from ..util import guards
+    R = chk.rule("R-NUMERIC-LEXING", "reader and writer classify numeric tokens with the same two tests in the same order: (a) in the lexer function that calls both str::parse::<i64> and "
+                 "str::parse::<f64> on an atom token, every path from the failure of the i64 parse to a return passes the f64 parse (no branch rejects or re-classifies the token in "
+                 "between, except the named constants NaN / inf / -inf which build a Float literal); (b) the Float arm of `Display for Literal` appends \".0\" exactly under "
+                 "`to_string().parse::<i64>().is_ok()` and prints the bare text otherwise")
+    lex = None
+    for f in prog.lib_fns(["egglog"]):
+        ps = [c for c in f.calls if c.p == "str::parse" or c.p.endswith("::str::parse")]
+        tys = {tuple(c.ga) for c in ps}
+        if ("i64",) in tys and ("f64",) in tys and "ast::parse" in f.name:
+            lex = f
+    if lex is None:
+        chk.missing(R, "lexer function calling str::parse::<i64> and str::parse::<f64>")
+        return
+    pi = [c for c in lex.calls if c.p.endswith("str::parse") and tuple(c.ga) == ("i64",)][0]
+    pf = {c.bb for c in lex.calls if c.p.endswith("str::parse") and tuple(c.ga) == ("f64",)}
+    # blocks that build a Float literal directly (the named constants)
+    named = set()
+    for i, j, s2 in lex.assigns():
+        rv = s2[2]
+        if rv[0] == "agg" and rv[1] == "adt" and str(rv[2]).endswith("Literal") and rv[3] == "Float":
+            named.add(i)
+    # Err arm of the i64 parse result
+    start = []
+    for b in sorted(lex.live):
+        t = lex.term(b)
+        if t[0] == "switch":
+            d = lex.describe_operand(t[1])
+            if d and d[0] == "disc" and d[1][0] == pi.dest[0]:
+                start += [tb for v, tb in t[2] if v == "1"]
+                if not start and t[3] is not None:
+                    start.append(t[3])
+    bad = None
+    seen = set()
+    stack = list(start)
+    while stack:
+        x = stack.pop()
+        if x in seen or x in pf or x in named:
+            continue
+        seen.add(x)
+        if lex.term(x)[0] == "ret":
+            bad = x
+            break
+        if x == pi.bb:
+            continue
+        stack.extend(lex.succ[x])
+    chk.judge(bool(start) and bool(pf) and bad is None, R, f"{lex.name}:i64-then-f64", "a token that is not an i64 always reaches the f64 test",
+              "the lexer can return (reject or re-classify the token) between the failed i64 parse and the f64 parse: a float the printer writes without a decimal point or exponent "
+              "(any whole number of magnitude >= 2^63) no longer reads back", lex.loc)
+    # (b) printer
+    disp = None
+    for n, g in prog.fns.items():
+        if n.endswith("generic_ast::Literal as core::fmt::Display>::fmt"):
+            disp = g
+    if disp is None:
+        chk.missing(R, "Display for Literal")
+        return
+    pis = [c for c in disp.calls if c.p.endswith("str::parse") and tuple(c.ga) == ("i64",)]
+    ok = False
+    if pis:
+        c0 = pis[0]
+        src = disp.origins(c0.args[0])
+        from_tostring = any(a[0] == "call" and a[1].endswith("ToString>::to_string") for a in src)
+        writes = [w for w in disp.calls if w.p.endswith("Formatter::write_fmt")]
+        with_dot, bare = [], []
+        for w in writes:
+            for g in guards(disp, w.bb):
+                if "variant" in g and g["place"][0] == c0.dest[0]:
+                    consts = " ".join(str(k) for k in disp.consts())
+                    (with_dot if g["variant"] == ["0"] else bare).append(w)
+        ok = from_tostring and len(with_dot) == 1 and len(bare) == 1
+    chk.judge(ok, R, "Display for Literal:Float", "`.0` appended exactly when the printed text would otherwise read back as an i64",
+              "the Float printer no longer decides on `text.parse::<i64>()`: either a whole-number float prints as an integer token, or the decision differs from the lexer's", disp.loc)
+
+
 def run(chk, prog, tier):
     chk.explanation = EXPLANATION
     chk.assumptions = ["string constants of printers and parser are visible in MIR (format templates are byte strings on this nightly)",
                        "a field that is read is assumed to be printed faithfully (escaping/format of literals is not decided)"]
     check_keywords(chk, prog)
     check_field_coverage(chk, prog)
+    check_numeric_lexing(chk, prog)
